@@ -785,7 +785,7 @@ def run(ctx):
         c = make_case(rnd, i + 1)
         # RefSem is evaluated on the programs that may be inside its fragment (a bounded number of them in the thorough tier,
         # and only a few of the programs with thousands of statements: TLC's evaluation depth grows with the program)
-        c["refsem"] = c["infrag"] and nrefsem < refsem_cap and (c["weight"] <= max_refsem_weight or heavy_refsem < (6 if ctx.quick else 40))
+        c["refsem"] = c["infrag"] and nrefsem < refsem_cap and (c["weight"] <= max_refsem_weight or heavy_refsem < (3 if ctx.quick else 12))
         if c["refsem"]:
             nrefsem += 1
             if c["weight"] > max_refsem_weight:
